@@ -265,7 +265,7 @@ VARIANTS = [
     V("direction-keyed-reverse", _W, _ANCHOR,
       _ANCHOR + "        ranked = sorted(self._population, key=lambda a: a.cost, reverse=(self._task.minmax == TaskType.MAX))\n", "C12.R1",
       more=[(_W, "from ..abstract import OptimizationAbstract\n", "from ..abstract import OptimizationAbstract\nfrom ..enums import TaskType\n")]),
-    V("fcn-sign-slip", _A, "else -1 * self._task.solve(x)", "else +1 * self._task.solve(x)", "C12.SGN-fcn"),
+    V("fcn-sign-slip", _A, "isinstance(value, list) else -value", "isinstance(value, list) else +value", "C12.SGN-fcn"),
     V("restore-only-population", _M,
       "        def refine_best_solution(a: Agent, tt: TaskType) -> Agent:\n            if tt == TaskType.MIN:\n                return a\n            # return the agent with the position multiplied by -1\n            return a.model_copy(update={\"cost\": -a.cost})",
       "        def refine_best_solution(a: Agent, tt: TaskType) -> Agent:\n            return a", "C12.SGN-restore"),
@@ -280,8 +280,8 @@ VARIANTS = [
       "            evolution.append(Population(agents=self._population))\n\n            (self._best_agent", "C12.PKG-optimize"),
     # twins
     V("twin-fcn-if-style", _A,
-      "        return self._task.solve(x) if self._task.minmax == TaskType.MIN else -1 * self._task.solve(x)",
-      "        if self._task.minmax == TaskType.MAX:\n            return -self._task.solve(x)\n        return self._task.solve(x)", None),
+      "        value = self._task.solve(x)\n        if self._task.minmax == TaskType.MIN:\n            return value\n        return [-v for v in value] if isinstance(value, list) else -value",
+      "        value = self._task.solve(x)\n        if self._task.minmax == TaskType.MAX:\n            return [-1 * v for v in value] if isinstance(value, list) else -1 * value\n        return value", None),
     V("twin-debug-fitness-free", _W, _ANCHOR, _ANCHOR + "        if self._debug:\n            print(self._task.minmax)\n", None),
 ]
 
